@@ -52,6 +52,11 @@ def corpus():
                    + [dict(op='add', rule='/s', methods=['DELETE'], h=2)] + _probe_all(['/s'], ['BREW'])
                    + [dict(op='add', rule='/s', methods=['get'], h=3, overwrite=True)] + _probe_all(['/s'], ['BREW'])
                    + [dict(op='remove_method', rule='/s', methods=['GET', 'PUT', 'DELETE'])] + _probe_all(['/s'], ['BREW', 'GET'])))
+    # one registration for several verbs, then a NON-first verb removed through its RouteMethod object
+    cs.append(dict(cmds=[dict(op='add', rule='/s', methods=['GET', 'POST', 'DELETE'], h=1),
+                         dict(op='remove_via', rule='/s', verb='DELETE')] + _probe_all(['/s'], ['GET', 'POST', 'DELETE', 'BREW'])
+                   + [dict(op='remove_via', rule='/s', verb='POST', path='/s')] + _probe_all(['/s'], ['GET', 'POST', 'DELETE', 'BREW'])
+                   + [dict(op='remove_via', rule='/s', verb='put')] + _probe_all(['/s'], ['GET', 'BREW'])))
     # HEAD registered explicitly wins over GET
     cs.append(dict(cmds=[dict(op='add', rule='/s', methods=['GET'], h=1), dict(op='add', rule='/s', methods=['HEAD'], h=2)]
                    + _probe_all(['/s'])))
@@ -68,8 +73,13 @@ def _history(rng, rule, h0):
             cmds.append(dict(op='add', rule=rule, methods=ms, h=h0 + k))
         elif r < 0.7:
             cmds.append(dict(op='add', rule=rule, methods=ms, h=h0 + k, overwrite=True))
-        else:
+        elif r < 0.85:
             cmds.append(dict(op='remove_method', rule=rule, methods=ms))
+        else:
+            # removal through the RouteMethod object of ONE verb (route[verb].remove() / resolve(...)[0][0].remove())
+            hit = next(h for ru, h, _m in RULES if ru == rule)
+            cmds.append(dict(op='remove_via', rule=rule, verb=ms[-1],
+                             path=hit if rng.random() < 0.5 else None))
     return cmds
 
 
@@ -142,6 +152,10 @@ def oracle(case, obs):
             if t is not None:
                 for m in c['methods']:
                     t.pop(m, None)
+        elif c['op'] == 'remove_via':
+            t = tables.get(c['rule'])
+            if t is not None:
+                t.pop(c['verb'], None)         # exactly the verb whose RouteMethod was removed
         elif c['op'] == 'dispatch':
             w = o['wsgi']
             sp = c['path'].strip('/')
@@ -157,11 +171,11 @@ def oracle(case, obs):
             t = tables[rule]
             if w.get('status') == 404 or o['direct'].get('kind') == 404:
                 return '%s %r matches route %s but the answer is 404' % (verb, c['path'], rule)
-            want = t.get(verb)
+            want, via = t.get(verb), verb
             if want is None and verb == 'HEAD':
-                want = t.get('GET')
+                want, via = t.get('GET'), 'GET'
             if want is None:
-                want = t.get('ANY')
+                want, via = t.get('ANY'), 'ANY'
             if want is None:
                 allow = L.cps(','.join(sorted(t)))
                 if w.get('status') != 405 or handlers:
@@ -175,11 +189,14 @@ def oracle(case, obs):
                         verb, rule, sorted(t), want, w.get('status'), [x[1] for x in handlers])
                 if o['direct'].get('h') != want:
                     return 'resolve: %s on %s: expected handler %d, got %s' % (verb, rule, want, o['direct'].get('h'))
+                if o['direct'].get('method') != L.cps(via):
+                    return 'resolve: %s on %s dispatched to the entry of %s but the RouteMethod calls itself %r' % (
+                        verb, rule, via, ''.join(map(chr, o['direct'].get('method') or [])))
     return None
 
 
 def nontrivial(case, obs):
-    edits = any((c['op'] == 'add' and (c.get('overwrite') or o == 5)) or c['op'] == 'remove_method'
+    edits = any((c['op'] == 'add' and (c.get('overwrite') or o == 5)) or c['op'] in ('remove_method', 'remove_via')
                 for c, o in zip(case['cmds'], obs))
     saw405 = any(c['op'] == 'dispatch' and o['wsgi'].get('status') == 405 for c, o in zip(case['cmds'], obs))
     fb = any(c['op'] == 'dispatch' and o['direct'].get('kind') == 200
